@@ -417,6 +417,43 @@ func onlyVia(fn *ssa.Function, target ssa.Instruction, via edgePred) bool {
 	return reach(fn, nil, func(i ssa.Instruction) bool { return i == target }, nil, via) == nil
 }
 
+// valuesAt: the values v can hold when control arrives at site. A φ stands for those of its inputs whose
+// edge can be followed by the site: input k is left out when, entering the φ's block from predecessor k,
+// the branches that the φ-inputs of that very edge decide (a `found` flag merged together with the value
+// it vouches for, tested before the value is used) lead away from the site. Coming by the block again
+// gives the φ a new value, which the other inputs account for. One level only: an input that is itself
+// a φ is returned as it is.
+func valuesAt(v ssa.Value, site ssa.Instruction) []ssa.Value {
+	phi, ok := v.(*ssa.Phi)
+	if !ok || site == nil || site.Parent() != phi.Parent() {
+		return []ssa.Value{v}
+	}
+	blk := phi.Block()
+	first := blk.Instrs[0]
+	var out []ssa.Value
+	for k, e := range phi.Edges {
+		if k >= len(blk.Preds) {
+			return []ssa.Value{v}
+		}
+		hit := reach1(phi.Parent(), first, blk.Preds[k], func(i ssa.Instruction) bool { return i == site },
+			func(i ssa.Instruction) bool { return i == first }, nil, true)
+		if hit == nil {
+			continue
+		}
+		dup := false
+		for _, o := range out {
+			dup = dup || o == e
+		}
+		if !dup {
+			out = append(out, e)
+		}
+	}
+	if len(out) == 0 {
+		return []ssa.Value{v}
+	}
+	return out
+}
+
 // boolImplies: the boolean v can have the value truth only on executions on which base holds. base judges
 // a (value, truth) pair directly ("this is the lookup's ok, false"); what is added here is the ways a
 // program carries such a fact in another variable:
@@ -426,7 +463,9 @@ func onlyVia(fn *ssa.Function, target ssa.Instruction, via edgePred) bool {
 //     every input that gives v the value truth must come in from a block that is reached only over
 //     edges on which base holds.
 //
-// Anything else (a φ input that is not a constant, a cell with several stores) is not an implication.
+//   - a boolean φ input that is not a constant but itself implies base in this sense (`a || b`).
+//
+// Anything else (an integer φ input that is not a constant, a cell with several stores) is not an implication.
 func boolImplies(v ssa.Value, truth bool, base func(v ssa.Value, truth bool) bool) bool {
 	return boolImplies0(v, truth, base, 0)
 }
@@ -443,23 +482,30 @@ func boolImplies0(v ssa.Value, truth bool, base func(v ssa.Value, truth bool) bo
 		return ok && boolImplies0(c, t, base, depth+1)
 	}
 	// the inputs of φ that make `hit` true arrive only over base edges
-	phiInputs := func(phi *ssa.Phi, hit func(e ssa.Value) (is, known bool)) bool {
+	phiInputs := func(phi *ssa.Phi, whole bool, hit func(e ssa.Value) (is, known bool)) bool {
 		fn := phi.Parent()
 		for k, e := range phi.Edges {
 			is, known := hit(e)
-			if !known {
+			_, isK := e.(*ssa.Const)
+			if !known && (isK || !whole) {
 				return false
 			}
-			if !is {
+			if known && !is {
 				continue
 			}
+			// the input gives (a constant) or may give (a boolean that is not one) v the value: it comes
+			// in over base edges only, or it has the value itself only where base holds
 			p := phi.Block().Preds[k]
 			if via(p, phi.Block()) {
 				continue
 			}
-			if len(p.Instrs) == 0 || !onlyVia(fn, p.Instrs[len(p.Instrs)-1], via) {
-				return false
+			if len(p.Instrs) != 0 && onlyVia(fn, p.Instrs[len(p.Instrs)-1], via) {
+				continue
 			}
+			if !known && boolImplies0(e, truth, base, depth+1) {
+				continue
+			}
+			return false
 		}
 		return true
 	}
@@ -474,7 +520,7 @@ func boolImplies0(v ssa.Value, truth bool, base func(v ssa.Value, truth bool) bo
 			}
 		}
 	case *ssa.Phi:
-		return phiInputs(x, func(e ssa.Value) (bool, bool) {
+		return phiInputs(x, true, func(e ssa.Value) (bool, bool) {
 			k, ok := constBool(e)
 			return k == truth, ok
 		})
@@ -502,7 +548,7 @@ func boolImplies0(v ssa.Value, truth bool, base func(v ssa.Value, truth bool) bo
 		if !isPhi {
 			return false
 		}
-		return phiInputs(phi, func(e ssa.Value) (bool, bool) {
+		return phiInputs(phi, false, func(e ssa.Value) (bool, bool) {
 			c, ok := constInt(e)
 			return ((c == k) == (x.Op == token.EQL)) == truth, ok
 		})
